@@ -73,7 +73,7 @@ Qed.
 
 (* ------------------------------------------------------------------ join laws *)
 
-(** the unit tests of s3.rs:1465-1505 (they exercise paths.rs:113-141) *)
+(** the unit tests of s3.rs:1481-1521 (they exercise paths.rs:113-141) *)
 Lemma join_unit_tests :
   join (b "") (b "") = b "" /\ join_ts (b "") (b "") = b "" /\
   join (b "") (b "foo") = b "foo" /\ join_ts (b "") (b "foo") = b "foo/" /\
@@ -267,7 +267,7 @@ Proof.
 Qed.
 
 (** every key a listing returns begins with the repository prefix and a slash, and the
-    slicing of s3.rs:816-824 strips exactly that *)
+    slicing of s3.rs:832-840 strips exactly that *)
 Lemma prefix_offset_exact cp path key :
   pfx_ok cp = true -> starts_with (request_prefix cp path) key = true ->
   exists rel, key = under cp rel /\
@@ -282,7 +282,7 @@ Proof.
     + intros Hb. rewrite <- app_assoc. cbn [app]. now apply (slice_under (c :: cp)).
 Qed.
 
-(* ------------------------------------------------------------------ the stored prefix (s3.rs:777) *)
+(* ------------------------------------------------------------------ the stored prefix (s3.rs:793) *)
 
 Lemma trim_cons c r : trim_trailing_slashes (c :: r) =
   match trim_trailing_slashes r with [] => if is_slash c then [] else [c] | r' => c :: r' end.
@@ -749,7 +749,7 @@ Qed.
 (* ------------------------------------------------------------------ a listing of "path" is the subtree below "path/" *)
 
 (** the ListObjectsV2 prefix of a directory path: "<prefix>/<path>/" (join_with_trailing_slash,
-    s3.rs:797) - the trailing slash is what keeps "obj10/..." out of a listing of "obj1" *)
+    s3.rs:813) - the trailing slash is what keeps "obj10/..." out of a listing of "obj1" *)
 Lemma request_prefix_dir cp path : pfx_ok cp = true -> relb path = true ->
   request_prefix cp path = under cp (path ++ [slash]).
 Proof.
@@ -835,7 +835,7 @@ Proof.
     apply starts_with_refl_app.
 Qed.
 
-(** the recursive listing of a directory path (list_objects, s3.rs:790-792) returns exactly
+(** the recursive listing of a directory path (list_objects, s3.rs:806-808) returns exactly
     the stored paths below "path/", each once, in key order *)
 Lemma list_objects_below_lemma keys cp path :
   pfx_ok cp = true -> relb path = true -> keys_boundary_ok cp keys ->
@@ -894,11 +894,11 @@ Proof.
     + now rewrite <- app_assoc.
 Qed.
 
-(** without a failing request purge_object deletes exactly the keys below "<prefix>/<root>/"
+(** without a failing request the deletion part of purge_object deletes exactly the keys below "<prefix>/<root>/"
     and keeps every other key with its content *)
-Lemma purge_exact_lemma cp root bk :
+Lemma purge_delete_exact_lemma cp root bk :
   pfx_ok cp = true -> relb root = true -> keys_boundary_ok cp (bk_keys bk) ->
-  let out := purge_object None cp root (init_st bk) in
+  let out := purge_delete None cp root (init_st bk) in
   fst out = Ok tt /\
   st_b (snd out) = filter (fun kv => negb (starts_with (under cp (root ++ [slash])) (fst kv))) bk /\
   st_log (snd out) = map RDelete (filter (starts_with (under cp (root ++ [slash]))) (bk_keys bk)).
@@ -911,7 +911,7 @@ Proof.
     destruct cp as [|c cp]; [apply join_nil_l|]. apply join_rel; auto; try discriminate.
     - destruct root; [congruence|discriminate].
     - destruct root; [congruence|exact Hh]. }
-  cbv zeta. unfold purge_object, init_st. cbn [st_b]. rewrite E1, purge_loop_nofault.
+  cbv zeta. unfold purge_delete, init_st. cbn [st_b]. rewrite E1, purge_loop_nofault.
   cbn [fst snd st_b st_log app]. split; [reflexivity|]. split.
   - rewrite J, E2, purge_fold_remove. apply filter_ext_in. intros kv Hin. f_equal.
     set (f := starts_with (under cp (root ++ [slash]))).
@@ -995,4 +995,69 @@ Lemma validate_root_cases :
   s3_validate_object_root keys (b "p") (b "./x") = Err /\
   s3_validate_object_root keys (b "p") (b "a/b/") = Err /\
   s3_validate_object_root keys (b "p") (b "") = Err.
+Proof. repeat split; vm_compute; reflexivity. Qed.
+
+(* ------------------------------------------------------------------ purge_object with its guards (s3.rs:593-646) *)
+
+(** whether purge_object leaves the bucket alone although the root passed validation: the root
+    is an object directory ([objs] = the keys directly in it) whose inventory names another id,
+    or it is none and an object declaration lies somewhere below it ([below]) *)
+Definition purge_spared (inv_id : bytes -> option bytes) (bk : bucket) (cp oid root : bytes) (objs below : list bytes) : bool :=
+  if is_object_dir objs
+  then match stored_inventory_id inv_id bk cp root with Some id' => negb (bytes_eqb id' oid) | None => false end
+  else is_object_dir below.
+
+Lemma purge_refused_lemma inv_id cp oid mapped bk :
+  s3_validate_object_root (bk_keys bk) cp (trim_slashes mapped) = Err ->
+  purge_object inv_id None cp oid mapped (init_st bk) = (Err, init_st bk).
+Proof. intros H. unfold purge_object, init_st. cbn [st_b]. now rewrite H. Qed.
+
+Lemma purge_guarded_lemma inv_id cp oid mapped bk objs dirs :
+  pfx_ok cp = true -> keys_boundary_ok cp (bk_keys bk) ->
+  let root := trim_slashes mapped in
+  s3_validate_object_root (bk_keys bk) cp root = Ok tt ->
+  list_all (bk_keys bk) cp root true = Ok (objs, dirs) ->
+  exists below, list_all (bk_keys bk) cp root false = Ok (below, []) /\
+    map (under cp) below = filter (starts_with (under cp (root ++ [slash]))) (bk_keys bk) /\
+    let out := purge_object inv_id None cp oid mapped (init_st bk) in
+    fst out = Ok tt /\
+    (purge_spared inv_id bk cp oid root objs below = true -> snd out = init_st bk) /\
+    (purge_spared inv_id bk cp oid root objs below = false ->
+       st_b (snd out) = filter (fun kv => negb (starts_with (under cp (root ++ [slash])) (fst kv))) bk /\
+       st_log (snd out) = map RDelete (filter (starts_with (under cp (root ++ [slash]))) (bk_keys bk))).
+Proof.
+  intros Hc Hb root Hv Hl.
+  destruct (validated_root_lemma _ _ _ Hv) as (Hr & _ & _).
+  destruct (list_objects_below_lemma (bk_keys bk) cp root Hc Hr Hb) as (below & E1 & E2 & _).
+  destruct (purge_delete_exact_lemma cp root bk Hc Hr Hb) as (D1 & D2 & D3).
+  exists below. split; [exact E1|]. split; [exact E2|].
+  cbv zeta. unfold purge_object, purge_spared. fold root. change (st_b (init_st bk)) with bk.
+  rewrite Hv, Hl. destruct (is_object_dir objs).
+  - destruct (stored_inventory_id inv_id bk cp root) as [id'|].
+    + destruct (bytes_eqb id' oid); cbn [negb].
+      * split; [exact D1|]. split; [discriminate|]. intros _. split; [exact D2|exact D3].
+      * split; [reflexivity|]. split; [reflexivity|discriminate].
+    + split; [exact D1|]. split; [discriminate|]. intros _. split; [exact D2|exact D3].
+  - rewrite E1. destruct (is_object_dir below).
+    + split; [reflexivity|]. split; [reflexivity|discriminate].
+    + split; [exact D1|]. split; [discriminate|]. intros _. split; [exact D2|exact D3].
+Qed.
+
+Lemma purge_guard_cases :
+  let inv_id := fun tok : bytes => match tok with c :: r => if Ascii.eqb c "I"%char then Some r else None | [] => None end in
+  let bk := [(b "p/coll/obj1/0=ocfl_object_1.0", b "x"); (b "p/coll/obj1/inventory.json", b "Icoll/obj1");
+             (b "p/coll/obj1/v1/content/a", b "y"); (b "p/1/0=ocfl_object_1.1", b "x"); (b "p/1/inventory.json", b "Iurn:obj:1");
+             (b "p/extensions/0002-flat-direct-storage-layout/config.json", b "c")] in
+  let run := fun oid mapped => purge_object inv_id None (b "p") oid mapped (init_st bk) in
+  run (b "coll") (b "coll") = (Ok tt, init_st bk) /\                       (* a directory other objects are stored beneath *)
+  run (b "other:1") (b "1") = (Ok tt, init_st bk) /\                       (* the root of an object with another id *)
+  run (b "coll/obj1/v1") (b "coll/obj1/v1") = (Err, init_st bk) /\         (* inside another object *)
+  run (b "extensions") (b "extensions") = (Err, init_st bk) /\
+  run (b "../x") (b "../x") = (Err, init_st bk) /\
+  bk_keys (st_b (snd (run (b "urn:obj:1") (b "1")))) =
+    [b "p/coll/obj1/0=ocfl_object_1.0"; b "p/coll/obj1/inventory.json"; b "p/coll/obj1/v1/content/a";
+     b "p/extensions/0002-flat-direct-storage-layout/config.json"] /\
+  bk_keys (st_b (snd (run (b "coll/obj1") (b "/coll/obj1/")))) =
+    [b "p/1/0=ocfl_object_1.1"; b "p/1/inventory.json"; b "p/extensions/0002-flat-direct-storage-layout/config.json"] /\
+  run (b "nothing") (b "nothing") = (Ok tt, mkSt bk 0 []).
 Proof. repeat split; vm_compute; reflexivity. Qed.
